@@ -432,6 +432,51 @@ func c02Judge(v *c02Vec, src string, a c02Ans) (bool, string, string) {
 	return true, "", ""
 }
 
+// c02AfterFailedOpen: GetTemplate does not hang - also not after a lookup whose Open failed (the template was deleted
+// between Exists and Open) and a loader edit that followed it
+func c02AfterFailedOpen() *Result {
+	done := make(chan string, 1)
+	go func() {
+		l := jet.NewInMemLoader()
+		l.Set("/a.jet", "a")
+		set := jet.NewSet(&c02VanishingLoader{InMemLoader: l, vanish: "/gone.jet"})
+		l.Set("/gone.jet", "x")
+		if _, err := set.GetTemplate("/gone.jet"); err == nil {
+			done <- "GetTemplate of a template whose Open fails returned no error"
+			return
+		}
+		l.Set("/b.jet", "b") // a loader edit after the failed Open
+		if _, err := set.GetTemplate("/b.jet"); err != nil {
+			done <- "GetTemplate(/b.jet) after the edit: " + err.Error()
+			return
+		}
+		done <- ""
+	}()
+	select {
+	case why := <-done:
+		if why != "" {
+			return &Result{Sig: map[string]interface{}{"kind": "after-failed-open", "cfg": "A", "family": "history", "ctx": "", "lexs": "", "glue": false, "verdict": ""}, Key: "history", Detail: why}
+		}
+	case <-time.After(c02HangDeadline):
+		return &Result{Sig: map[string]interface{}{"kind": "hang", "cfg": "A", "family": "history", "ctx": "", "lexs": "", "glue": false, "verdict": ""}, Key: "history",
+			Detail: "after a GetTemplate whose Open failed, a loader edit followed by another GetTemplate did not return within 10 s"}
+	}
+	return nil
+}
+
+// c02VanishingLoader: Exists says yes for one path, but by the time it is opened the file has been deleted
+type c02VanishingLoader struct {
+	*jet.InMemLoader
+	vanish string
+}
+
+func (l *c02VanishingLoader) Open(p string) (io.ReadCloser, error) {
+	if p == l.vanish {
+		l.InMemLoader.Delete(p)
+	}
+	return l.InMemLoader.Open(p)
+}
+
 func c02Replay(cfgName string) func(i int, raw json.RawMessage) Result {
 	pool := &c02Pool{}
 	cfg := c03Cfgs[cfgName]
@@ -443,6 +488,11 @@ func c02Replay(cfgName string) func(i int, raw json.RawMessage) Result {
 		var v c02Vec
 		if err := json.Unmarshal(raw, &v); err != nil {
 			return Result{Detail: "bad vector: " + err.Error()}
+		}
+		if i == 0 && cfgName == "A" {
+			if r := c02AfterFailedOpen(); r != nil {
+				return *r
+			}
 		}
 		var srcs []string
 		kind := "struct"
